@@ -63,6 +63,24 @@ theorem c13_generated_code_length (c : Cfg) (hatt : c.maxAttempts ≤ U32MAX) :
   rw [c13_generated_code_is_the_model c hatt _ 1 (Nat.le_refl 1), List.length_map]
   exact c13_length c
 
+/-- No delay handed out by the translated iterator exceeds the configured maximum. -/
+theorem c13_generated_code_clamped (c : Cfg) (m : Nat) (hm : c.maxDuration = some m) (hatt : c.maxAttempts ≤ U32MAX) :
+    ∀ a ∈ genTake c (c.maxAttempts + 1) 1, a.duration ≤ m := by
+  intro a ha
+  rw [c13_generated_code_is_the_model c hatt _ 1 (Nat.le_refl 1)] at ha
+  simp only [List.mem_map] at ha
+  obtain ⟨b, hb, rfl⟩ := ha
+  exact c13_clamped c m hm b hb
+
+/-- Nothing wraps in the translated iterator: every delay is a representable `Duration`. -/
+theorem c13_generated_code_representable (c : Cfg) (hstep : c.step ≤ DMAX) (hatt : c.maxAttempts ≤ U32MAX) :
+    ∀ a ∈ genTake c (c.maxAttempts + 1) 1, a.duration ≤ DMAX := by
+  intro a ha
+  rw [c13_generated_code_is_the_model c hatt _ 1 (Nat.le_refl 1)] at ha
+  simp only [List.mem_map] at ha
+  obtain ⟨b, hb, rfl⟩ := ha
+  exact c13_representable c hstep hatt b hb
+
 /-- The translated iterator is finite and stays exhausted: past `max_attempts` it yields nothing and leaves its
     counter alone. -/
 theorem c13_generated_code_exhausted (c : Cfg) (cur : Nat) (h : c.maxAttempts < cur) :
@@ -86,5 +104,7 @@ end Selium.Backoff
 #print axioms Selium.Backoff.c13_generated_code_is_the_model
 #print axioms Selium.Backoff.c13_generated_code_schedule
 #print axioms Selium.Backoff.c13_generated_code_length
+#print axioms Selium.Backoff.c13_generated_code_clamped
+#print axioms Selium.Backoff.c13_generated_code_representable
 #print axioms Selium.Backoff.c13_generated_code_exhausted
 #print axioms Selium.Backoff.c13_generated_saturating_mul
